@@ -397,50 +397,69 @@ func (s *Solver) CheckT(name, query string, wantModel bool, timeout time.Duratio
 	id := s.n
 	s.mu.Unlock()
 	ms := int(timeout / time.Millisecond)
-	var res SolverResult
 	start := time.Now()
-	for _, be := range backends() {
-		q := query + "\n(check-sat)\n"
-		if wantModel {
-			q = "(set-option :produce-models true)\n" + query + "\n(check-sat)\n(get-model)\n"
-		}
-		if be.prep != nil {
-			q = be.prep(q)
-		}
-		file := filepath.Join(s.Dir, fmt.Sprintf("q%d_%s.smt2", id, sanitize(be.name)))
-		if err := os.WriteFile(file, []byte(q), 0o644); err != nil {
-			return SolverResult{Status: "error", Output: err.Error()}
-		}
-		argv := be.args(file, ms)
-		ctx, cancel := context.WithTimeout(context.Background(), timeout+5*time.Second)
-		cmd := exec.CommandContext(ctx, argv[0], argv[1:]...)
-		var out bytes.Buffer
-		cmd.Stdout = &out
-		cmd.Stderr = &out
-		t0 := time.Now()
-		_ = cmd.Run()
-		cancel()
-		el := time.Since(t0).Seconds()
-		if !s.Keep {
-			os.Remove(file)
-		}
-		first := strings.TrimSpace(strings.SplitN(out.String(), "\n", 2)[0])
-		res.Tried = append(res.Tried, fmt.Sprintf("%s:%s:%.2fs", be.name, first, el))
-		switch first {
-		case "unsat":
-			res.Status, res.Backend, res.Time, res.Output = "unsat", be.name, time.Since(start).Seconds(), ""
-			return res
-		case "sat":
-			res.Status, res.Backend, res.Time, res.Output = "sat", be.name, time.Since(start).Seconds(), out.String()
-			return res
+	ctx, cancel := context.WithTimeout(context.Background(), timeout+5*time.Second)
+	defer cancel()
+	type one struct {
+		be    string
+		first string
+		out   string
+		el    float64
+	}
+	bes := backends()
+	ch := make(chan one, len(bes))
+	for _, be := range bes {
+		be := be
+		go func() {
+			q := query + "\n(check-sat)\n"
+			if wantModel {
+				q = "(set-option :produce-models true)\n" + query + "\n(check-sat)\n(get-model)\n"
+			}
+			if be.prep != nil {
+				q = be.prep(q)
+			}
+			file := filepath.Join(s.Dir, fmt.Sprintf("q%d_%s.smt2", id, sanitize(be.name)))
+			if err := os.WriteFile(file, []byte(q), 0o644); err != nil {
+				ch <- one{be.name, "error", err.Error(), 0}
+				return
+			}
+			argv := be.args(file, ms)
+			cmd := exec.CommandContext(ctx, argv[0], argv[1:]...)
+			var out bytes.Buffer
+			cmd.Stdout = &out
+			cmd.Stderr = &out
+			t0 := time.Now()
+			_ = cmd.Run()
+			if !s.Keep {
+				os.Remove(file)
+			}
+			first := strings.TrimSpace(strings.SplitN(out.String(), "\n", 2)[0])
+			ch <- one{be.name, first, out.String(), time.Since(t0).Seconds()}
+		}()
+	}
+	var res SolverResult
+	for range bes {
+		r := <-ch
+		res.Tried = append(res.Tried, fmt.Sprintf("%s:%s:%.2fs", r.be, truncate(r.first, 40), r.el))
+		switch r.first {
+		case "unsat", "sat":
+			if res.Status == "" {
+				res.Status, res.Backend, res.Time = r.first, r.be, time.Since(start).Seconds()
+				if r.first == "sat" {
+					res.Output = r.out
+				}
+				cancel() // stop the others
+			}
 		default:
-			if res.Output == "" || len(out.String()) < 2000 {
-				res.Output += be.name + ": " + truncate(out.String(), 600) + "\n"
+			if ctx.Err() == nil && len(res.Output) < 2000 && res.Status == "" {
+				res.Output += r.be + ": " + truncate(r.out, 600) + "\n"
 			}
 		}
 	}
-	res.Status = "unknown"
-	res.Time = time.Since(start).Seconds()
+	if res.Status == "" {
+		res.Status = "unknown"
+		res.Time = time.Since(start).Seconds()
+	}
 	return res
 }
 
